@@ -544,6 +544,9 @@ func replayTrace(repo, verif, pkgDir string, hfiles map[string][]string, unit, a
 		}
 	}
 	if base == "" {
+		if strings.Contains(outS, "ptrace(") || strings.Contains(outS, "PTRACE_") || strings.Contains(outS, "Operation not permitted") {
+			return "unavailable", "" // tracing is not permitted here: the trace-level confirmation is skipped, not failed
+		}
 		return "error", "native run did not reach the trace-level check:\n" + tail(outS, 20)
 	}
 	durable := strings.HasSuffix(op, "+durable")
